@@ -17,8 +17,11 @@ import (
 	"os"
 	"os/exec"
 	"path/filepath"
+	"runtime/debug"
 	"sort"
 	"strings"
+	"sync"
+	"time"
 
 	"github.com/bamzi/jobrunner"
 	"github.com/dgraph-io/badger/v4"
@@ -44,6 +47,7 @@ func genC20Case(r *rand.Rand, rsync bool) SDCase {
 	cur := map[string]model.Ent{}
 	n := 6 + r.Intn(10)
 	backups := 0
+	busy := 0
 	restarts := 0
 	wroteSince := false
 	dcLive := false
@@ -85,6 +89,14 @@ func genC20Case(r *rand.Rand, rsync bool) SDCase {
 				}
 				wroteSince = true
 			}
+		case k < 70 && !rsync && busy < 2:
+			// a backup run that overlaps client writes and further scheduler invocations, followed by a quiet run
+			busy++
+			backups += 2
+			wroteSince = false
+			tags["backup-during-writes"] = true
+			tags["write-between-backups"] = true
+			c.Ops = append(c.Ops, SDOp{Kind: "backup-busy"})
 		case k < 88:
 			if backups > 0 && wroteSince {
 				tags["write-between-backups"] = true
@@ -181,7 +193,7 @@ func runC20Case(ctx *Ctx, c SDCase) {
 	defer func() { s.core.Close() }()
 	defer func() {
 		if p := recover(); p != nil {
-			s.viol("C20", "panic", fmt.Sprintf("panic: %v", p), nil, nil)
+			s.viol("C20", "panic", fmt.Sprintf("panic: %v", p), nil, string(debug.Stack()))
 		}
 	}()
 	for _, d := range c.Datasets {
@@ -214,6 +226,29 @@ func runC20Case(ctx *Ctx, c SDCase) {
 			}
 			nBackups++
 			ctx.Out.Stat("c20_backup_runs", 1)
+			s.c20RestoreAndCompare(dir, rsync, want, nBackups)
+		case "backup-busy":
+			s.c20BusyBackup(bm)
+			if s.abort {
+				break
+			}
+			nBackups++
+			// the quiet run that follows must pick up everything that was acknowledged during the busy run
+			want := s.c20Snapshot(s.core)
+			func() {
+				defer func() {
+					if p := recover(); p != nil {
+						s.viol("C20", "backup-run-panic", fmt.Sprintf("backup run panicked: %v", p), nil, nil)
+						s.abort = true
+					}
+				}()
+				bm.Run()
+			}()
+			if s.abort {
+				break
+			}
+			nBackups++
+			ctx.Out.Stat("c20_backup_runs", 2)
 			s.c20RestoreAndCompare(dir, rsync, want, nBackups)
 		case "restart":
 			if err := s.core.Close(); err != nil {
@@ -390,4 +425,69 @@ func dirHash(dir string) string {
 		}
 	}
 	return hex.EncodeToString(h.Sum(nil))
+}
+
+// c20BusyBackup runs one backup while a client keeps writing single-entity batches and the scheduler
+// "fires" three more times. Every write that was acknowledged is applied to the model in order.
+func (s *sdRun) c20BusyBackup(bm *server.BackupManager) {
+	// make the run long enough to overlap something: a bulk dataset, written once per case
+	if s.core.Dsm.GetDataset("bulk") == nil {
+		if _, err := s.core.Dsm.CreateDataset("bulk", nil); err != nil {
+			s.viol("C20", "op-error", err.Error(), nil, nil)
+			s.abort = true
+			return
+		}
+		s.m.Create("bulk")
+		var ents []model.Ent
+		for i := 0; i < 4000; i++ {
+			ents = append(ents, model.Ent{ID: fmt.Sprintf("%sbulk%d", gen.NsA, i), Props: map[string]any{gen.NsP + "k0": fmt.Sprintf("some payload to make the backup run take a moment %d", i)}, Refs: map[string]any{}})
+		}
+		for i := 0; i < len(ents); i += 500 {
+			if err := StoreBatch(s.core, "bulk", ents[i:i+500], false); err != nil {
+				s.viol("C20", "op-error", err.Error(), nil, nil)
+				s.abort = true
+				return
+			}
+			s.m.Apply("bulk", ents[i:i+500])
+		}
+	}
+	stop := make(chan struct{})
+	var acked []model.Ent
+	var wg sync.WaitGroup
+	wg.Add(1)
+	go func() {
+		defer wg.Done()
+		for k := 0; ; k++ {
+			select {
+			case <-stop:
+				return
+			default:
+			}
+			e := model.Ent{ID: fmt.Sprintf("%sw%d-%d", gen.NsA, s.opIdx, k), Props: map[string]any{gen.NsP + "k1": float64(k)}, Refs: map[string]any{}}
+			if err := StoreBatch(s.core, "da", []model.Ent{e}, false); err == nil {
+				acked = append(acked, e)
+			}
+		}
+	}()
+	var rw sync.WaitGroup
+	runGuarded := func() {
+		defer rw.Done()
+		defer func() { _ = recover() }()
+		bm.Run()
+	}
+	rw.Add(1)
+	go runGuarded()
+	for i := 0; i < 3; i++ { // further scheduler invocations while the run is in progress
+		time.Sleep(3 * time.Millisecond)
+		rw.Add(1)
+		go runGuarded()
+	}
+	rw.Wait()
+	close(stop)
+	wg.Wait()
+	for _, e := range acked {
+		s.m.Apply("da", []model.Ent{e})
+	}
+	s.ctx.Out.Stat("c20_writes_acknowledged_during_backup_runs", int64(len(acked)))
+	s.ctx.Out.Stat("c20_busy_backup_runs", 1)
 }
